@@ -234,6 +234,32 @@ def pens(ctx, w, S, R):
             ok = all(t[0] == "adt" and t[1] == "cell::Cell" and t[4] == (("const", ("char", 0x20)), ("load", ("arg1",))) for t in rts)
         else:
             ok = all(t[0] == "call" and t[1] == "cell::Cell::new" and t[2][0] == ("load", ("arg1",)) and t[2][1][0] == "call" and t[2][1][1].endswith("Default>::default") for t in rts)
+        if not ok:
+            # another spelling (a constructor call, a struct literal ...): decide by evaluation, observed through the public accessors
+            try:
+                from rules import prims
+                it = prims.VecInterp(w.facts)
+                acc = {}
+                for g, fo in w.facts.fns.items():
+                    if (fo.get("impl_self") or {}).get("adt") == "cell::Cell" and "impl_trait" not in fo and [i_["s"] for i_ in fo["inputs"]] == ["&cell::Cell"]:
+                        acc.setdefault(fo["output"]["s"], []).append(g)
+                if len(acc.get("char", [])) == 1 and len(acc.get("&pen::Pen", [])) == 1:
+                    P = ("sym", "PEN")
+                    v = it.call_fn(fn, [P] if want == "blank" else [0x45])
+                    ch, pn = it.call_fn(acc["char"][0], [v]), it.call_fn(acc["&pen::Pen"][0], [v])
+                    while isinstance(pn, tuple) and pn and pn[0] == "ref":
+                        pn = pn[-1]
+                    if want == "blank":
+                        ok = ch == 0x20 and pn == P
+                    else:
+                        dflt = None
+                        try:
+                            dflt = it.call_fn("<pen::Pen as core::default::Default>::default", [])
+                        except Exception:
+                            pass
+                        ok = ch == 0x45 and (pn == ("ext", "core::default::Default::default", ()) or (dflt is not None and pn == dflt))
+            except Exception:
+                ok = False
         ctx.check(ok, "X3", fn, "%s returns %s" % (fn, [w.tstr(fn, t) for t in rts]), loc=w.fn_loc(fn), sample={"fn": fn, "returns": [w.tstr(fn, t) for t in rts]})
     ctx.floor("X3", 6, "pen / blank operands")
 
